@@ -24,8 +24,9 @@ structure IIState where
   deriving Repr, Inhabited
 
 /-- One iteration of `for (i, c) in text.char_indices()`. -/
-def iiStep (ds : DataSource) (enc : Enc) (split : Bool) (dflt : Option Nat)
+def iiStep (ds : DataSource) (t : Text) (split : Bool) (dflt : Option Nat)
     (st : IIState) (s : Seg) : IIState :=
+  let enc := t.enc
   let cls := ds.cls s.cp
   let len := enc.charLen s.cp
   let i := s.start
@@ -48,8 +49,9 @@ def iiStep (ds : DataSource) (enc : Enc) (split : Bool) (dflt : Option Nat)
     match st.stack with
     | start :: _ =>
       if st.classes.getD start ON == FSI then
-        -- X5c: `for j in 0..T::char_len(chars::FSI)`
-        let n := enc.charLen Gen.fcFSI
+        -- X5c: `for j in 0..text.char_at(start).map_or(1, |(_, len)| len)`: every code unit of the
+        -- character at `start`, whatever its width (repaired form, finding D10; before: `T::char_len(chars::FSI)`)
+        let n := match t.charAt start with | some fsi => fsi.len | none => 1
         let v := if cls == L then LRI else RLI
         { st with
           classes := setRange st.classes start n v
@@ -77,7 +79,7 @@ structure InitialOut where
 /-- `compute_initial_info(data_source, text, default_para_level, split_paragraphs)` -/
 def computeInitialInfo (ds : DataSource) (t : Text) (dflt : Option Nat) (split : Bool) : InitialOut :=
   let st0 : IIState := { paraLevel := dflt }
-  let st := t.segs.foldl (iiStep ds t.enc split dflt) st0
+  let st := t.segs.foldl (iiStep ds t split dflt) st0
   let (paras, flags) :=
     if split && st.paraStart < t.len then
       (st.paras ++ [{ start := st.paraStart, stop := t.len, level := st.paraLevel.getD 0 }],
